@@ -1103,6 +1103,16 @@ fn forms() -> Vec<Form> {
         form!("let-tuple", "", "{ let (u, w) = (%a, %b)\n u * 10.0 + w }"),
         form!("let-tuple-nested", "", "{ let (u, (w, z)) = %t\n u * 100.0 + w * 10.0 + z }"),
         form!("let-tuple-nested-deep", "", "{ let ((u, w), (x, (y, z))) = ((%a, 2.0), (%b, (4.0, 5.0)))\n u + w * 2.0 + x * 3.0 + y * 4.0 + z * 5.0 }"),
+        // nested sub-patterns at every combination of positions (a desugaring temporary must be unique
+        // per sub-pattern, not per position): each leaf has its own prime weight
+        form!("let-tuple-shape-left-deep", "", "{ let ((u, (w, x)), (y, z)) = ((%a, (2.0, 3.0)), (%b, 5.0))\n u + w * 2.0 + x * 3.0 + y * 5.0 + z * 7.0 }"),
+        form!("let-tuple-shape-3level-left", "", "{ let (((u, w), x), (y, z)) = (((%a, 2.0), 3.0), (%b, 5.0))\n u + w * 2.0 + x * 3.0 + y * 5.0 + z * 7.0 }"),
+        form!("let-tuple-shape-both-deep", "", "{ let ((u, (w, x)), (y, (z, v))) = ((%a, (2.0, 3.0)), (%b, (5.0, 6.0)))\n u + w * 2.0 + x * 3.0 + y * 5.0 + z * 7.0 + v * 11.0 }"),
+        form!("let-tuple-shape-triple", "", "{ let (u, (w, x), (y, z)) = (%a, (2.0, 3.0), (%b, 5.0))\n u + w * 2.0 + x * 3.0 + y * 5.0 + z * 7.0 }"),
+        form!("let-tuple-shape-middle-deep", "", "{ let ((u, w), (x, (y, z)), (v, k)) = ((%a, 2.0), (3.0, (%b, 5.0)), (6.0, 7.0))\n u + w * 2.0 + x * 3.0 + y * 5.0 + z * 7.0 + v * 11.0 + k * 13.0 }"),
+        form!("let-tuple-shape-4level", "", "{ let (u, (w, (x, (y, z)))) = (%a, (2.0, (3.0, (%b, 5.0))))\n u + w * 2.0 + x * 3.0 + y * 5.0 + z * 7.0 }"),
+        form!("let-tuple-two-nested-lets", "", "{ let (u, (w, x)) = (%a, (2.0, 3.0))\n let ((y, z), v) = ((%b, 5.0), 6.0)\n u + w * 2.0 + x * 3.0 + y * 5.0 + z * 7.0 + v * 11.0 }"),
+        form!("let-tuple-nested-in-lambda", "", "(|c9p| { let ((u, (w, x)), (y, z)) = ((c9p, (2.0, 3.0)), (%b, 5.0))\n u + w * 2.0 + x * 3.0 + y * 5.0 + z * 7.0 })(%a)"),
         form!("let-record", "", "{ let {p = u, q = w} = %r\n u * 10.0 + w }"),
         form!("let-placeholder", "", "{ let _ = %a\n %b }"),
         form!("let-tuple-placeholder", "", "{ let (u, _) = (%a, %b)\n u }"),
